@@ -200,6 +200,42 @@ func setsOverlap(a, b manifest.RegionMeta) bool {
 	return !aBeforeB && !bBeforeA
 }
 
+// doubleCover returns the keys that lie in at least two regions, as merged spans.
+func doubleCover(ms []manifest.RegionMeta) []span {
+	var pieces []manifest.RegionMeta
+	for i := 0; i < len(ms); i++ {
+		for j := i + 1; j < len(ms); j++ {
+			if !setsOverlap(ms[i], ms[j]) {
+				continue
+			}
+			x := manifest.RegionMeta{StartKey: ms[i].StartKey, EndKey: ms[i].EndKey}
+			if bytes.Compare(ms[j].StartKey, x.StartKey) > 0 {
+				x.StartKey = ms[j].StartKey
+			}
+			if len(x.EndKey) == 0 || (len(ms[j].EndKey) > 0 && bytes.Compare(ms[j].EndKey, x.EndKey) < 0) {
+				x.EndKey = ms[j].EndKey
+			}
+			pieces = append(pieces, x)
+		}
+	}
+	return coverage(pieces, 0)
+}
+
+// overlappingPair names two regions that both intersect s (for the report text).
+func overlappingPair(ms []manifest.RegionMeta, s span) (string, string) {
+	probe := manifest.RegionMeta{StartKey: s.lo, EndKey: s.hi}
+	var names []string
+	for _, m := range ms {
+		if setsOverlap(m, probe) {
+			names = append(names, fmtRegion(m))
+		}
+	}
+	for len(names) < 2 {
+		names = append(names, "?")
+	}
+	return names[0], names[1]
+}
+
 func epochRaised(prev, cur manifest.RegionEpoch) bool {
 	if cur.Version < prev.Version || cur.ConfVersion < prev.ConfVersion {
 		return false
@@ -275,21 +311,17 @@ func (o *c24Oracle) check(info stepInfo) {
 	cur := w.Catalog()
 	res.Trace.Add("catalog %s", catalogString(cur))
 
-	// (1) live ranges pairwise disjoint.
-	for i := 0; i < len(cur); i++ {
-		for j := i + 1; j < len(cur); j++ {
-			res.Checks++
-			if setsOverlap(cur[i], cur[j]) {
-				// report only overlaps that are new in this step
-				pm := byID(o.prev)
-				a, aok := pm[cur[i].ID]
-				b, bok := pm[cur[j].ID]
-				if aok && bok && metaRangeEqual(a, cur[i]) && metaRangeEqual(b, cur[j]) {
-					continue
-				}
-				res.Violate(w.step, "overlap", o.sigWith(info, nil), "after %s: %s overlaps %s", info.op, fmtRegion(cur[i]), fmtRegion(cur[j]))
-			}
+	// (1) live ranges pairwise disjoint: no key may become covered twice in this
+	// step (keys that were already covered twice were reported when that happened).
+	was := doubleCover(o.prev)
+	res.Checks += len(cur) * (len(cur) - 1) / 2
+	for _, s := range doubleCover(cur) {
+		if spansCover(was, s) {
+			continue
 		}
+		a, b := overlappingPair(cur, s)
+		res.Violate(w.step, "overlap", o.sigWith(info, nil), "after %s: keys %s are now inside both %s and %s; catalog before: %s", info.op, s, a, b, catalogString(o.prev))
+		break
 	}
 	// (2) union of the ranges unchanged (minus a region removed on purpose).
 	want := coverage(o.prev, info.removeID)
@@ -378,7 +410,7 @@ func panicSig(pv any) map[string]string {
 func neighbours(cat []manifest.RegionMeta, t manifest.RegionMeta) (left, right *manifest.RegionMeta) {
 	for i := range cat {
 		m := &cat[i]
-		if m.ID == t.ID {
+		if m.ID == t.ID || degenerate(*m) {
 			continue
 		}
 		if len(t.EndKey) > 0 && bytes.Equal(m.StartKey, t.EndKey) && right == nil {
@@ -539,6 +571,9 @@ func execC24(t *testing.T, c *sim.Case) *sim.Result {
 					continue
 				}
 				target := cat[int(op.A)%len(cat)]
+				if degenerate(target) {
+					continue // an empty or inverted range has no neighbours to speak of
+				}
 				left, right := neighbours(cat, target)
 				var source *manifest.RegionMeta
 				rel := ""
@@ -551,7 +586,7 @@ func execC24(t *testing.T, c *sim.Case) *sim.Result {
 					var others []*manifest.RegionMeta
 					for k := range cat {
 						m := &cat[k]
-						if m.ID != target.ID && (left == nil || m.ID != left.ID) && (right == nil || m.ID != right.ID) {
+						if m.ID != target.ID && !degenerate(*m) && (left == nil || m.ID != left.ID) && (right == nil || m.ID != right.ID) {
 							others = append(others, m)
 						}
 					}
@@ -662,7 +697,7 @@ func (o *c24Oracle) restart(info stepInfo) bool {
 		same = metaEqual(before[i], after[i])
 	}
 	if !same {
-		res.Violate(w.step, "reload_mismatch", map[string]string{"wiring": wiring, "phase": "load"},
+		res.Violate(w.step, "reload_mismatch", map[string]string{"op": "restart", "wiring": wiring, "phase": "load"},
 			"catalog before restart: %s; manifest after reopen: %s; catalog after restart: %s", catalogString(before), catalogString(persisted), catalogString(after))
 		if w.wiring == 0 {
 			// cmd/nokv serve builds the store without a manifest, so nothing the
@@ -701,7 +736,7 @@ func (o *c24Oracle) restart(info stepInfo) bool {
 		same = metaEqual(before[i], settled[i])
 	}
 	if !same {
-		res.Violate(w.step, "reload_mismatch", map[string]string{"wiring": wiring, "phase": "replay"},
+		res.Violate(w.step, "reload_mismatch", map[string]string{"op": "restart", "wiring": wiring, "phase": "replay"},
 			"catalog before restart: %s; after restart and log replay: %s (first tick error: %q)", catalogString(before), catalogString(settled), tickErr)
 	}
 	// Invariants against the pre-restart catalog, then carry on from what is there.
